@@ -114,6 +114,13 @@ def run(case, row=None, acts=None, which=None, ty=None):
         try:
             A, _ = build(case, row, acts)
             d = getattr(fl, which or case["which"])(ty or case["type"])
+            # reading a fuzzy output must not change it: the same Aggregated term is grouped and defuzzified once before the
+            # observed call (a defect that accumulates degrees in place, or caches a kind, shows on the second read)
+            try:
+                A.grouped_terms()
+                d.defuzzify(A)
+            except Exception:  # noqa: BLE001
+                pass
             v = d.defuzzify(A)
             return [float(t) for t in np.atleast_1d(np.asarray(v, dtype=float)).ravel()]
         except TypeError:
